@@ -28,7 +28,7 @@ STATE_MEASURE = 'distinct (rule key set, near-miss kind, matched?) triples at pr
 PROBES = ['signal-matches-some-rule', 'near-miss-path-sibling', 'near-miss-namespace-sibling',
           'arg-missing', 'arg-non-string', 'argpath-trailing-slash-rule', 'argpath-trailing-slash-arg',
           'type-constraint-other', 'signal-while-add-pending', 'signal-while-del-pending',
-          'signal-after-removal', 'callback-raised', 'addmatch-refused', 'rule-cancelled-from-its-callback', 'callable-shared-by-rules', 'shared-callable-ran-per-rule', 'proxy-signal-right-signature',
+          'signal-after-removal', 'callback-raised', 'two-senders-same-serial-back-to-back', 'addmatch-refused', 'rule-cancelled-from-its-callback', 'callable-shared-by-rules', 'shared-callable-ran-per-rule', 'proxy-signal-right-signature',
           'proxy-signal-wrong-signature', 'two-rules-one-signal', 'apostrophe-in-value',
           'empty-body-with-arg-rule', 'proxy-subscription-without-interface',
           'same-rule-id-on-two-connections']
@@ -322,6 +322,15 @@ def scenario(ctx):
                           little=not ds.flag(0.15))
         frames.append((pipe_dc.total, 'signal', (m, kind)))
         sim.log('op', 'signal', path, iface, member, dest, sig, kind)
+        if ds.flag(0.15):
+            # every sender numbers its own messages: another sender's signal with the very same
+            # serial follows at once
+            path, iface, member, dest, sig, body, kind = gen_signal(ds, specs, sim)
+            m2 = daemon.signal(path, iface, member, sig, body, sender=':1.78', dest=dest,
+                               little=not ds.flag(0.15), serial=m.serial)
+            frames.append((pipe_dc.total, 'signal', (m2, kind)))
+            sim.probe('two-senders-same-serial-back-to-back')
+            sim.log('op', 'signal2', path, iface, member, dest, sig, kind)
 
     def extra():
         ops = []
@@ -366,11 +375,12 @@ def scenario(ctx):
         # walk the frames delivered in this step in stream order
         new_inv = invoked[ninv[0]:]
         ninv[0] = len(invoked)
-        groups = {}
+        groups = []        # [(serial, sender), callbacks run] per signal handed to the client, in order
         cur = None
         for idx, args in new_inv:
             if idx == 'sig':
-                cur = groups.setdefault(args, [])
+                cur = []
+                groups.append((args, cur))
             elif cur is None:
                 raise Violation('C12/wrongly-delivered', 'no signal',
                                 'callback %d ran outside the processing of any signal' % idx)
@@ -413,7 +423,8 @@ def scenario(ctx):
                         sim.probe('signal-while-del-pending')
             if any(r['state'] == 'gone' and matchref.matches(r['rdict'], m) for r in rules):
                 sim.probe('signal-after-removal')
-            got = groups.pop(m.serial, [])
+            key = (m.serial, m.fields.get(rc.F_SENDER))
+            got = groups.pop(0)[1] if groups and groups[0][0] == key else []
             got_ids = [g[0] for g in got]
             note_probes(m, nearmiss, must)
             # callbacks are counted per callable: one run per satisfied rule it serves
@@ -516,7 +527,7 @@ def scenario(ctx):
     orig_signal_received = cl.signalReceived
 
     def traced_signal_received(msig):
-        invoked.append(('sig', msig.serial))
+        invoked.append(('sig', (msig.serial, msig.sender)))
         return orig_signal_received(msig)
     cl.signalReceived = traced_signal_received
 
